@@ -722,6 +722,9 @@ static int vnadata_save_common(vnadata_t *vdp, FILE *fp, const char *filename,
     vnadata_t *conversions[VPT_NTYPES];
     vnadata_internal_t *vdip_orig = NULL;
     vnadata_filetype_t filetype_orig = VNADATA_FILETYPE_AUTO;
+    bool format_defaulted = false;
+    bool *format_untyped = NULL;
+    char *format_string_orig = NULL;
 
     /*
      * Validate pointer.
@@ -831,6 +834,7 @@ static int vnadata_save_common(vnadata_t *vdp, FILE *fp, const char *filename,
 		    VNADATA_FORMAT_REAL_IMAG) == -1) {
 	    goto out;
 	}
+	format_defaulted = true;
     }
 
     /*
@@ -1059,11 +1063,20 @@ static int vnadata_save_common(vnadata_t *vdp, FILE *fp, const char *filename,
 	    vnadata_format_descriptor_t *vfdp = &vdip->vdi_format_vector[i];
 
 	    if (vfdp->vfd_parameter == VPT_UNDEF) {
+		if (format_untyped == NULL && (format_untyped = calloc(
+				vdip->vdi_format_count, sizeof(bool))) == NULL) {
+		    _vnadata_error(vdip, VNAERR_SYSTEM,
+			    "calloc: %s", strerror(errno));
+		    goto out;
+		}
+		format_untyped[i] = true;
 		vfdp->vfd_parameter = type;
 		changed = true;
 	    }
 	}
 	if (changed) {
+	    format_string_orig = vdip->vdi_format_string;
+	    vdip->vdi_format_string = NULL;
 	    if (_vnadata_update_format_string(vdip) == -1) {
 		goto out;
 	    }
@@ -1551,6 +1564,32 @@ out:
 	/* a refused save leaves the file type setting as it was */
 	vdip_orig->vdi_filetype = filetype_orig;
     }
+    if (vdip_orig != NULL) {
+	/*
+	 * The default format and the parameter types filled into
+	 * type-less specifiers hold for this call only: a later save
+	 * of the object, possibly converted meanwhile, resolves them anew.
+	 */
+	if (format_defaulted) {
+	    free((void *)vdip_orig->vdi_format_vector);
+	    vdip_orig->vdi_format_vector = NULL;
+	    vdip_orig->vdi_format_count = 0;
+	    (void)_vnadata_update_format_string(vdip_orig);
+	} else if (format_untyped != NULL) {
+	    for (int i = 0; i < vdip_orig->vdi_format_count; ++i) {
+		if (format_untyped[i]) {
+		    vdip_orig->vdi_format_vector[i].vfd_parameter = VPT_UNDEF;
+		}
+	    }
+	    if (format_string_orig != NULL) {
+		free((void *)vdip_orig->vdi_format_string);
+		vdip_orig->vdi_format_string = format_string_orig;
+		format_string_orig = NULL;
+	    }
+	}
+    }
+    free((void *)format_untyped);
+    free((void *)format_string_orig);
     if (function == vnadata_save_name && fp != NULL) {
 	(void)fclose(fp);
 	fp = NULL;
